@@ -264,6 +264,41 @@ pub fn check_point(root: &Path, n: usize, h1: u64, h2: u64, rep: &mut Report) ->
     if !matches!(&r, Ok(Some(b)) if b == b"N") {
         bad.push(("stack-get".into(), format!("stacked Cache does not find the entry: {:?}", r)));
     }
+    // (5) a candidate location is obstructed (a directory sits under the key's name in one of its two shards):
+    // whatever set/put answer, nothing is ever stored anywhere but directly inside the two candidate shards
+    for obstructed in [&d2, &d1] {
+        for set in [true, false] {
+            clean(root);
+            shim::passthrough(|| std::fs::create_dir_all(obstructed.join(name)).unwrap());
+            let h = kismet_cache::sharded::Cache::new(root.to_path_buf(), n, 1000);
+            shim::passthrough(|| std::fs::write(&src, b"O").unwrap());
+            let (r, trace) = participant(|| if set { h.set(key, &src) } else { h.put(key, &src) });
+            rep.transitions += trace.len() as u64;
+            let mut stray: Vec<String> = Vec::new();
+            for (rel, node) in world::snapshot(root) {
+                let comps: Vec<&str> = rel.split('/').collect();
+                let top_ok = comps[0] == shard_dir_name(e1) || comps[0] == shard_dir_name(e2);
+                let ok = rel.is_empty()
+                    || rel == "src_file"
+                    || (top_ok && (comps.len() == 1 || (comps.len() == 2 && (comps[1] == name || comps[1] == ".kismet_temp")) || (comps.len() == 3 && comps[1] == ".kismet_temp")));
+                if !ok {
+                    stray.push(format!("{} ({})", rel, node.kind));
+                }
+            }
+            if !stray.is_empty() {
+                bad.push((
+                    "stray-with-obstructed-candidate".into(),
+                    format!(
+                        "{} with a directory sitting at {:?} answered {:?} and left {:?} outside the key's two candidate locations",
+                        if set { "set" } else { "put" },
+                        obstructed.join(name).strip_prefix(root).unwrap_or(obstructed),
+                        r.as_ref().map(|_| ()).map_err(|e| e.kind()),
+                        stray
+                    ),
+                ));
+            }
+        }
+    }
     bad
 }
 
